@@ -232,7 +232,13 @@ func (r *run) ridOptions() []middleware.RequestIDOption {
 	}
 	// limit 0 = "no limit": either the option is not given or it is given with 0
 	if r.cfg.Limit > 0 || r.cfg.Depth%2 == 0 {
-		o = append(o, middleware.RequestIDLimitOption(r.cfg.Limit))
+		// options are independent setters: the position of the limit among them must not matter (Middleware.tla has
+		// no notion of it); it is put first or last depending on the case so that both orders are exercised
+		if (r.cfg.Limit+r.cfg.Depth+len(r.cfg.Trust))%2 == 1 {
+			o = append([]middleware.RequestIDOption{middleware.RequestIDLimitOption(r.cfg.Limit)}, o...)
+		} else {
+			o = append(o, middleware.RequestIDLimitOption(r.cfg.Limit))
+		}
 	}
 	return o
 }
